@@ -57,10 +57,12 @@ def apply_mut(toks, fills, m):
 
 def outcome(dialect, text):
     from pysmi import error
-    t0 = time.time()
     o = {'kind': '?', 'line': 0, 'tok': '-', 'nmods': 0, 'msg': ''}
+    prs = syntax.parser(dialect)        # building the parser tables is not part of parsing this text
+    # CPU time of this process, not wall-clock time: a loaded machine must not look like a parser that hangs
+    t0 = time.process_time()
     try:
-        r = syntax.parser(dialect).parse(text)
+        r = prs.parse(text)
         o.update(kind='modules', nmods=len(r))
     except error.PySmiError as exc:
         o.update(kind=type(exc).__name__, msg=str(exc)[:160])
@@ -74,7 +76,7 @@ def outcome(dialect, text):
             o['tok'] = '@EOF'
     except Exception as exc:
         o.update(kind='FOREIGN:' + type(exc).__name__, msg=str(exc)[:160], line=getattr(exc, 'lineno', -1) if isinstance(getattr(exc, 'lineno', -1), int) else -1)
-    o['ms'] = int((time.time() - t0) * 1000)
+    o['ms'] = int((time.process_time() - t0) * 1000)
     return o
 
 
@@ -164,7 +166,7 @@ def run(out, prop, tier, seed, **kw):
                 {'kind': 'mutate', 'what': t['kind'], 'file': t['file'], 'offset': t['offset'], 'mut': t['mut'], 'text': t['text'], 'dialect': t['dialect'], 'obs': t['obs']})
     out.assumptions += ['base texts are files of Syntax.tla (one representative declaration per kind, 1-2 modules); mutations are applied to (token, filler) pairs exactly as Mutate.tla defines (TextIsModel)',
                         'what a mutation inside a MACRO / EXPORTS / CHOICE block does is not judged (the block content must not matter)',
-                        '"never fails to terminate" is a 5 s bound per parse of a generated input, not a proof']
+                        '"never fails to terminate" is a bound of 5 s of CPU time per parse of a generated input, not a proof']
 
 
 def classify(t, f):
